@@ -23,7 +23,7 @@ Nothing here looks at names, statement order or nesting: a reordered, merged or 
 constraints.  A scanner written over indices instead of pointers, or with a different algorithm (two passes, a table), is outside
 this engine and reported as not recognised.
 """
-from .facts import Facts, Matcher, is_const, const_val
+from .facts import Facts, Matcher, ANY as ANY_, is_const, const_val
 
 SEP = 47
 DOT = 46
@@ -163,7 +163,7 @@ class Scanner:
         return self.F.edge_facts(b, s)
 
     # ---- path enumeration ---------------------------------------------------------------------------------------------
-    def paths(self, start, L=None, env0=None, prev=None, stop_at=None, cap=4000):
+    def paths(self, start, L=None, env0=None, prev=None, stop_at=None, cap=4000, follow_exits=True):
         """all paths from block `start`: through one iteration of loop L when L is given (end 'back'), to a return (end 'ret', info =
         resolved return operand or None) or to block stop_at (end 'stop').  Loops other than L met on the way are crossed from their
         header to each of their exit edges in one step (their header phis stay symbolic; entry values are recorded in path.inner)."""
@@ -233,6 +233,9 @@ class Scanner:
                 rec(s, enter(b, s, env, inner), f2, blocks + [b], inner, depth + 1)
 
         def rec_exit(b, s, env, facts, blocks, inner, depth):
+            if not follow_exits:
+                out.append(Path(facts, enter(b, s, env, inner), "exit", (b, s), blocks, inner))
+                return
             # left the loop L: follow to the return(s) with L = None semantics (other loops collapsed)
             for p in self._after(s, enter(b, s, env, inner), facts, blocks, inner, (b, s)):
                 out.append(p)
@@ -854,3 +857,137 @@ def check_glob(fn, F=None):
         if stats[k] < 1:
             problems.append((where, "the matcher has no %s path" % k))
     return not problems, problems, stats
+
+
+def check_option_word(fn, F, flag_struct, flag_field, letter):
+    """the option-word parser examines every character: per iteration the cursor advances by one; by two only when the skipped byte is known
+    to be a digit (a level that belongs to the letter before it); or leaves the word behind altogether under the fact that the current byte
+    is 'w' (the rest is a directory name).  And a byte equal to `letter` sets flag_struct.flag_field to 1 on that very path."""
+    S_ = Scanner(fn, F)
+    M = S_.M
+    problems = []
+    par = ("v", fn.params[0].id)
+    cand = None
+    for L in sorted(S_.loops, key=lambda l: -len(l["body"])):
+        hdr = fn.blocks[L["header"]]
+        for ph in [i for i in hdr.insts if i.op == "phi" and i.ty.endswith("*")]:
+            ins = [v for v, b in ph.incoming if b not in L["body"]]
+            if ins and all(S_.ptr(v, {}) == (par, 0) for v in ins):
+                cand = (L, ph)
+        if cand:
+            break
+    if cand is None:
+        return False, [("%s:%s" % (fn.file, fn.line), "not recognised: no loop walking the option word from its first character")], {}
+    L, R = cand
+    hdr = fn.blocks[L["header"]]
+    where = "%s:%s" % (fn.file, hdr.term.line())
+    env0 = {i.id: ("v", i.id) for i in hdr.insts if i.op == "phi"}
+    ps = S_.paths(L["header"], L, env0)
+    Rp = (("v", R.id), 0)
+    stats = {"paths": 0, "step1": 0, "step2-digit": 0, "rest": 0, "letter": 0}
+
+    def byte_cons(path, at):
+        lo, hi, eq = None, None, set()
+        for f, env in path.facts:
+            if not is_const(f[2]) or const_val(f[2]) is None or S_.byte_at(f[1], env) != at:
+                continue
+            k = const_val(f[2]) & 0xFF if f[0] in ("eq", "ne") else const_val(f[2])
+            if f[0] == "eq":
+                eq.add(k)
+            elif f[0] in ("sge", "uge"):
+                lo = k if lo is None else max(lo, k)
+            elif f[0] in ("sgt", "ugt"):
+                lo = k + 1 if lo is None else max(lo, k + 1)
+            elif f[0] in ("sle", "ule"):
+                hi = k if hi is None else min(hi, k)
+            elif f[0] in ("slt", "ult"):
+                hi = k - 1 if hi is None else min(hi, k - 1)
+        return lo, hi, eq
+
+    for p in ps:
+        stats["paths"] += 1
+        if p.end == "overflow":
+            problems.append((where, "too many paths through one iteration"))
+            continue
+        lo0, hi0, eq0 = byte_cons(p, Rp)
+        if ord(letter) in eq0:
+            stats["letter"] += 1
+            sts = [i for b in p.blocks for i in fn.blocks[b].insts if i.op == "store" and M.match(("field", flag_struct, flag_field, ANY_), i.ops[1], {}) is not None
+                   and is_const(i.ops[0]) and const_val(i.ops[0]) == 1]
+            if not sts:
+                problems.append((where, "path %s: the character '%s' does not set %s.%s" % ("-".join(map(str, p.blocks)), letter, flag_struct, flag_field)))
+        if p.end != "back":
+            continue
+        e2 = dict(p.env)
+        e2.update(env0)                         # the header phis stand for the values at the start of the iteration
+        desc = "-".join(map(str, p.blocks))
+
+        def excluded(path, at):
+            lo, hi, eq = byte_cons(path, at)
+            L_ = ord(letter)
+            return (bool(eq) and L_ not in eq) or (lo is not None and lo > L_) or (hi is not None and hi < L_)
+
+        def skipped_ok(path, base, frm, to):
+            """bytes base+frm .. base+to are all known not to be the letter"""
+            return all(excluded(path, (base, k)) for k in range(frm, to + 1))
+
+        r2 = S_.ptr(p.env.get(R.id), e2)
+        # cursors of inner loops crossed on this path: each starts at an examined position and each of its own steps passes known bytes only
+        base, off = r2
+        hops = 0
+        bad = None
+        while base != Rp[0] and hops < 4:
+            hops += 1
+            hit = None
+            for il, init in p.inner:
+                if base[0] == "v" and base[1] in init:
+                    hit = (il, init)
+            if hit is None:
+                break
+            il, init = hit
+            if off < 1 or not skipped_ok(p, base, 1, off - 1):
+                bad = "after the inner scan the cursor passes a character that is not known to differ from '%s'" % letter
+                break
+            ienv0 = {i.id: ("v", i.id) for i in fn.blocks[il["header"]].insts if i.op == "phi"}
+            for q in S_.paths(il["header"], il, ienv0, follow_exits=False):
+                if q.end == "overflow":
+                    bad = "too many paths through the inner scan"
+                if q.end != "back":
+                    continue
+                qe = dict(q.env)
+                qe.update(ienv0)
+                nb, no = S_.ptr(q.env.get(base[1]), qe)
+                if nb != base or no < 0 or not skipped_ok(q, base, 1, no):
+                    bad = "the inner scan at line %s passes a character that is not known to differ from '%s'" % (fn.blocks[il["header"]].term.line(), letter)
+            if bad:
+                break
+            ib, io = S_.ptr(init[base[1]], e2)
+            if io < 0 or not skipped_ok(p, ib, 1, io):
+                bad = "the inner scan starts past a character that is not known to differ from '%s'" % letter
+                break
+            # the position the inner cursor started from stands for it: everything between is accounted for
+            base, off = ib, 1 if ib == Rp[0] else 1
+            stats["inner-scan"] = stats.get("inner-scan", 0) + 1
+        if bad:
+            problems.append((where, "path %s: %s (an 'n' there is lost: the run is no longer a dry run)" % (desc, bad)))
+            continue
+        r2 = (base, off)
+        if r2 == (Rp[0], 1):
+            stats["step1"] += 1
+        elif r2[0] == Rp[0] and r2[1] >= 2:
+            if skipped_ok(p, Rp[0], 1, r2[1] - 1):
+                stats["step2-digit"] += 1
+            else:
+                problems.append((where, "path %s: the cursor skips a character that is not known to differ from '%s' (an option letter there is lost: for 'n' the run is no longer a dry run)" %
+                                 (desc, letter)))
+        elif 119 in eq0:
+            stats["rest"] += 1          # w / w=DIR: the remainder of the word is the directory
+        else:
+            problems.append((where, "path %s: the cursor moves to %s+%d without the current character being 'w'" % (desc, r2[0], r2[1])))
+    if stats["letter"] < 1:
+        problems.append((where, "no path tests for the character '%s'" % letter))
+    if stats["step1"] < 1:
+        problems.append((where, "no path advances the cursor by one"))
+    return not problems, problems, stats
+
+
